@@ -80,6 +80,14 @@ def make_cases(seed, n, names, T):
             M = [gen_coeff(rng, is8) for _ in range(mlen)]
             if mlen % 12 == 0 and rng.below(5) == 0:
                 directed_sum(rng, regs, M, mlen, 1)
+            elif not is8 and rng.below(6) == 0:
+                # "short coefficient" family: every coefficient of the array in one narrow class (all < 2^8, all < 2^16, all in
+                # [2^31, 2^32), all < 2^32) with large state words: a fast path keyed on the size of the coefficients (e.g. a
+                # lazily reduced kernel that is only exact for small ones) shows here and never for random 64-bit coefficients
+                lo, hi = rng.choice([(0, 1 << 8), (0, 1 << 16), (1 << 31, 1 << 32), (0, 1 << 32), ((1 << 32) - 16, 1 << 32)])
+                M = [lo + rng.below(hi - lo) for _ in range(mlen)]
+                if rng.below(2):
+                    regs = [[M64 - rng.below(1 << 20) if rng.below(4) else gen_state_word(rng) for _ in range(W)] for _ in range(3)]
             line = "%s %s [ %s ]" % (name, " ".join(hx(v) for r in regs for v in r), " ".join(hx(v) for v in M))
 
             def expect(vals, regs=regs, M=M, chk=chk):
